@@ -292,3 +292,46 @@ func (t *vfTW) unload() {
 		c.Take()
 	}
 }
+
+
+// cacheVsStore lists the fields in which the loaded topic differs from the stored rows (C08 direct).
+func (s *vfTopicSnap) cacheVsStore() []string {
+	var out []string
+	if !s.Loaded || !s.alive() {
+		return nil
+	}
+	chk := func(field, c, st string) {
+		if c != st {
+			out = append(out, fmt.Sprintf("%s: cached %s, stored %s", field, c, st))
+		}
+	}
+	chk("owner", s.COwner, s.Owner)
+	chk("access", s.CAccess, s.Access)
+	chk("public", s.CPublic, s.Public)
+	chk("trusted", s.CTrusted, s.Trusted)
+	chk("tags", s.CTags, s.Tags)
+	chk("seq", fmt.Sprint(s.CSeqID), fmt.Sprint(s.SeqID))
+	chk("delid", fmt.Sprint(s.CDelID), fmt.Sprint(s.DelID))
+	for _, u := range vfSortedKeys(s.Subs) {
+		st := s.Subs[u]
+		if st.Deleted || st.IsChan {
+			continue
+		}
+		c, ok := s.CSubs[u]
+		if !ok || c.Deleted {
+			out = append(out, fmt.Sprintf("sub %s: stored %s, not cached", u, st))
+			continue
+		}
+		chk("sub "+u, c.String(), st.String())
+	}
+	for _, u := range vfSortedKeys(s.CSubs) {
+		c := s.CSubs[u]
+		if c.Deleted || c.IsChan {
+			continue
+		}
+		if st, ok := s.Subs[u]; !ok || st.Deleted {
+			out = append(out, fmt.Sprintf("sub %s: cached %s, not stored", u, c))
+		}
+	}
+	return out
+}
